@@ -70,7 +70,7 @@ KindAt(i, t) == IF \E w \in SeqToSet(Windows) : w.integ = IntegName(i) /\ w.from
                   ELSE "ok"
 
 Init == /\ now = 0 /\ cfg = TheCfg /\ ver = << >> /\ sil = << >> /\ last = << >> /\ brk = << >> /\ fl = << >>
-        /\ cancd = [seen |-> {}, dead |-> << >>, deadgk |-> {}, refl |-> {}]
+        /\ cancd = [seen |-> {}, dead |-> << >>, deadgk |-> {}, refl |-> {}, ing |-> << >>]
         /\ elig = [p \in Alerts \X {IntegName(i) : i \in 1..NInt} |-> -1] /\ chk = {}
         /\ grp = << >> /\ gmap = << >> /\ nfl = << >> /\ ids = 0 /\ nposts = 0
 
